@@ -25,7 +25,7 @@ from . import fld
 
 MAXNUM, MAXDEN = 2_000_000, 64
 GEO = ("translate", "scale", "rotate90")
-INPLACE_STATE = ("setvalid", "mutatevalid", "updateconst", "setarray", "fromfield", "setsub", "writearray")
+INPLACE_STATE = ("setvalid", "mutatevalid", "updateconst", "setarray", "fromfield", "setsub", "writearray", "setvdims")
 PERSIST = {"h5": "h5", "ovf": "ovf", "vtk": "vtk"}
 
 
@@ -104,6 +104,30 @@ def fastparse(block):
         t = _FKEY.sub(r'"\1":', t)
         out[name] = json.loads(t)
     return out
+
+
+def int_text(v):
+    """the text of a number the model holds as an integer; anything else gets a text no model answer equals"""
+    v = complex(v)
+    r = round(v.real)
+    if v.imag == 0 and math.isfinite(v.real) and abs(v.real - r) <= 1e-9 * max(1.0, abs(r)):
+        return str(int(r))
+    return f"~{v!r}"
+
+
+def mean_text(m, ncells):
+    """`m:p/q,...`: the components of a mean over `ncells` integer-valued cells as exact rationals in lowest terms"""
+    out = []
+    for v in np.asarray(m).reshape(-1):
+        v = complex(v)
+        s = v.real * ncells
+        r = round(s) if math.isfinite(s) else 0
+        if v.imag == 0 and math.isfinite(s) and abs(s - r) <= 1e-6 * max(1.0, abs(r)):
+            q = Fraction(int(r), int(ncells))
+            out.append(f"{q.numerator}/{q.denominator}")
+        else:
+            out.append(f"~{v!r}")
+    return "m:" + ",".join(out)
 
 
 class World:
@@ -316,6 +340,20 @@ class World:
             return bool(self.vars[c["y"]].mesh.region in f.mesh.region)
         if op == "q_aligned":
             return bool(f.mesh.is_aligned(self.vars[c["y"]].mesh))
+        if op == "q_eq":
+            return bool(f == self.vars[c["y"]])
+        if op == "q_mean":
+            return mean_text(f.mean(), int(np.prod(f.mesh.n)))
+        if op == "q_call":
+            idx = self._flat_idx(f.mesh.n, a["cell"] - 1)
+            pmin_, cell_ = f.mesh.region.pmin, f.mesh.cell
+            point = tuple(float(pmin_[d] + (idx[d] + 0.5) * cell_[d]) for d in range(len(dims)))
+            return "v:" + ",".join(int_text(v) for v in np.asarray(f(point if len(point) > 1 else point[0])).reshape(-1))
+        if op == "mean":
+            return f.mean(direction=dims[a["d"] - 1])
+        if op == "setvdims":
+            f.vdims = [str(x) for x in a["lab"]]
+            return f
         if op == "sub":
             return f - self.vars[c["y"]]
         if op == "dot":
@@ -414,7 +452,7 @@ class World:
         first = None
         if op.startswith("q_"):
             self._gc()
-            return ("true" if ret else "false"), False, None
+            return (ret if isinstance(ret, str) else "true" if ret else "false"), False, None
         if op in GEO:
             if not c["ip"]:
                 self.vars[c["dst"]] = ret
